@@ -52,6 +52,15 @@ CLAIMED = {
               "segmentations, protocol errors, non-command frames, SUBSCRIBE-family pipelines, every dispatched name x arity/type matrix)."),
         note=TB + "Handlers are a parameter of the theorems; partial writes/back-pressure are exercised, not modelled; blocking pops, MONITOR, SYNC and transactions are judged by their own properties.",
         ref="DESIGN.md section 5 C05"),
+    "C06": dict(
+        text=("PARTIAL by nature. Proof: every arithmetic site fed by client input that can panic or abort (GETRANGE slice bounds, SETRANGE allocation and its 512 MB limit, "
+              "SRANDMEMBER count incl. i64::MIN, EVAL numkeys wrap-around, TTL deadline overflow, LINDEX/LSET/LRANGE/LTRIM windows, parser reservation, consumption and nesting depth) "
+              "is modelled in release arithmetic and proved panic-free for ALL arguments; the translator regenerates the inventory of risky constructs from the sources and the table "
+              "theorem fails when an unreviewed one appears. Exploration (support and failing-input search, not proof): the arithmetic models are compared with the server on a boundary grid, "
+              "and a hostile sweep (119 command names x arities x positions x 50 boundary literals x key types, malformed/absurd/deeply nested frames, 64k inputs per quick run) must "
+              "leave the process alive, a fresh connection served and canary data intact; a crash is bisected to one command."),
+        note=TB + "Stack cost per level, allocator behaviour under memory pressure, Lua run time (no script time limit: recorded finding) and lock-order deadlocks cannot be exhibited by a theorem; process liveness is explored, not proved.",
+        ref="DESIGN.md section 5 C06"),
     "C04": dict(
         text=("Proof: the skip-list invariant (level 0 strictly sorted by (score, member), every level a sublist of the one below, key index = level 0, length) for every "
               "operation sequence and every tower height, refinement of insert/remove to the sorted-list Spec, engine-level refinement for ZADD/ZINCRBY/ZREM/ZPOP histories, "
